@@ -1220,6 +1220,208 @@ Section Flat.
       destruct (add_newline (subst drop_last_nl ht (t_body t))); reflexivity.
     - cbn. reflexivity.
   Qed.
+
+  (** Calls inside a template body (C04: body -> substitute -> recursive expand with the new frame). *)
+  Notation body_subst := FlatCall.body_subst.
+  Notation body_calls_ok := (FlatCall.body_calls_ok pfnames lib).
+
+  Fixpoint size2 (e : enc) : nat :=
+    match e with
+    | [] => 1
+    | A args :: r => S (fold_right (fun a n => (length a + n)%nat) 2%nat args) + size2 r
+    | T args :: r => S (fold_right (fun a n => (length a + n)%nat) 2%nat args) + size2 r
+    | _ :: r => S (size2 r)
+    end.
+
+  Lemma fold_len_base (l : list enc) b :
+    fold_right (fun a n => (length a + n)%nat) b l = (fold_right (fun a n => (length a + n)%nat) 0%nat l + b)%nat.
+  Proof. induction l as [|a l IH]; cbn [fold_right]; [reflexivity | rewrite IH; lia]. Qed.
+
+  Lemma map_opt_args_plain f stk am (args : list enc) :
+    forallb plain args = true -> (fold_right (fun a n => (length a + n)%nat) 0%nat args < f)%nat ->
+    map_opt (fun x => option_map drop_last_nl (expand_args f stk am x)) args = Some (map drop_last_nl args).
+  Proof.
+    induction args as [|a args IH]; intros Hp Hf; [reflexivity|].
+    cbn in Hp. apply andb_true_iff in Hp. destruct Hp as [Ha Hl]. cbn [fold_right] in Hf.
+    cbn [map_opt map]. rewrite (expand_args_plain pfnames lib opts a Ha) by lia. cbn [option_map].
+    rewrite IH by (assumption || lia). reflexivity.
+  Qed.
+
+  Lemma body_marked outer b : body_calls_ok outer b = true -> body_calls_ok outer (marked_body b) = true.
+  Proof.
+    destruct b as [|i b]; [reflexivity|]. destruct i as [c| | | | |]; try (intros H; exact H).
+    cbn [marked_body]. destruct ((c =? 35) || (c =? 42) || (c =? 59) || (c =? 58)); intros H; exact H.
+  Qed.
+
+  (* the first pass on such a body *)
+  Lemma expand_args_body outer e : body_calls_ok outer e = true ->
+    forall fuel stk am, (size2 e < fuel)%nat -> expand_args fuel stk am e = Some (body_subst am e).
+  Proof.
+    induction e as [|i e IH]; intros Hb fuel stk am Hf.
+    - destruct fuel; [cbn in Hf; lia | reflexivity].
+    - destruct fuel as [|f]; [cbn in Hf; lia|].
+      destruct i as [c|args|args|args|c|]; try discriminate Hb.
+      + cbn [Expand.expand_args]. cbn in Hb, Hf. rewrite (IH Hb) by lia. reflexivity.
+      + destruct args as [|n args]; [discriminate Hb|].
+        cbn [FlatCall.body_calls_ok] in Hb. repeat (apply andb_true_iff in Hb; destruct Hb as [Hb ?]).
+        cbn [size2] in Hf. rewrite (fold_len_base (n :: args) 2) in Hf.
+        cbn [Expand.expand_args]. rewrite (IH ltac:(assumption)) by lia.
+        assert (Hall : forallb plain (n :: args) = true) by (cbn [forallb]; rewrite Hb; assumption).
+        rewrite (map_opt_args_plain f stk am (n :: args) Hall) by lia.
+        reflexivity.
+      + destruct args as [|k [|d [|x more]]]; try discriminate Hb.
+        * cbn in Hb. apply andb_true_iff in Hb. destruct Hb as [Hk Hb].
+          cbn [size2 fold_right] in Hf.
+          cbn [Expand.expand_args]. rewrite (IH Hb) by lia.
+          rewrite (expand_args_plain pfnames lib opts k Hk) by lia.
+          rewrite (expand_recurse_plain pfnames lib opts k Hk) by lia.
+          cbn [FlatCall.body_subst]. fold (param_key k).
+          destruct (am_get am (param_key k)); reflexivity.
+        * cbn in Hb. apply andb_true_iff in Hb. destruct Hb as [Hk Hb]. apply andb_true_iff in Hk. destruct Hk as [Hk Hd].
+          cbn [size2 fold_right] in Hf.
+          cbn [Expand.expand_args]. rewrite (IH Hb) by lia.
+          rewrite (expand_args_plain pfnames lib opts k Hk) by lia.
+          rewrite (expand_recurse_plain pfnames lib opts k Hk) by lia.
+          cbn [FlatCall.body_subst]. fold (param_key k).
+          destruct (am_get am (param_key k)); [reflexivity|].
+          rewrite (expand_args_plain pfnames lib opts d Hd) by lia. reflexivity.
+  Qed.
+
+  Lemma plain_items v : plain v = true -> forallb flat_item v = true.
+  Proof.
+    induction v as [|i v IH]; intros H; [reflexivity|]. cbn in H. apply andb_true_iff in H. destruct H as [Hi Hv].
+    cbn [forallb]. rewrite (IH Hv), andb_true_r. destruct i; try discriminate Hi. reflexivity.
+  Qed.
+
+  Lemma plain_fresh stk v : plain v = true -> fresh_items stk v = true.
+  Proof.
+    induction v as [|i v IH]; intros H; [reflexivity|]. cbn in H. apply andb_true_iff in H. destruct H as [Hi Hv].
+    unfold fresh_items. cbn [forallb]. fold (fresh_items stk v). rewrite (IH Hv), andb_true_r. destruct i; try discriminate Hi. reflexivity.
+  Qed.
+
+  Lemma fresh_app stk a b : fresh_items stk (a ++ b) = fresh_items stk a && fresh_items stk b.
+  Proof. unfold fresh_items. apply forallb_app. Qed.
+
+  (* what the second pass meets: text and flat calls to other templates *)
+  Lemma body_subst_items outer ht e : values_plain ht = true -> body_calls_ok outer e = true ->
+    forallb flat_item (body_subst ht e) = true /\ fresh_items [FTitle; FTemplate outer] (body_subst ht e) = true.
+  Proof.
+    intros Hh. induction e as [|i e IH]; intros Hb; [split; reflexivity|].
+    destruct i as [c|args|args|args|c|]; try discriminate Hb.
+    - cbn in Hb. destruct (IH Hb) as [H1 H2]. split; [cbn; exact H1 | unfold fresh_items in *; cbn; exact H2].
+    - destruct args as [|n args]; [discriminate Hb|].
+      cbn [FlatCall.body_calls_ok] in Hb. repeat (apply andb_true_iff in Hb; destruct Hb as [Hb ?]).
+      destruct (IH ltac:(assumption)) as [Hit Hfr].
+      cbn [FlatCall.body_subst map]. split.
+      + cbn [forallb FlatCall.flat_item]. rewrite Hit, andb_true_r.
+        rewrite plain_drop_last_nl by exact Hb. cbn [andb].
+        (* the name's trailing line break: a plain name that is stripped has none *)
+        match goal with X : flat_ok _ _ _ _ = true |- _ => destruct (flat_ok_premises _ _ X) as (Hs & _) end.
+        assert (Hdl : drop_last_nl n = n).
+        { rewrite <- (plain_chars_codes n Hb). rewrite <- Hs.
+          unfold drop_last_nl. destruct (rev (strip_i (chars (codes n)))) as [|z zs] eqn:Er; [reflexivity|].
+          destruct (is_code 10 z) eqn:Ez; [|reflexivity]. exfalso.
+          (* the last item of a stripped text is no blank *)
+          assert (Hsp : sp_item z = true) by (destruct z; try discriminate Ez; cbn in *; apply N.eqb_eq in Ez; subst; reflexivity).
+          unfold strip_i, rstrip_i in Er. rewrite rev_involutive in Er.
+          assert (Hl : forall y w ws, lstrip_i y = w :: ws -> sp_item w = false).
+          { induction y as [|q y IHy]; intros w ws Hy; [discriminate|]. cbn [lstrip_i] in Hy. destruct (sp_item q) eqn:Eq; [apply (IHy _ _ Hy)|].
+            inversion Hy; subst. exact Eq. }
+          rewrite (Hl _ _ _ Er) in Hsp. discriminate Hsp. }
+        rewrite Hdl. match goal with X : flat_ok _ _ _ _ = true |- _ => exact X end.
+      + unfold fresh_items in *. cbn [forallb]. rewrite Hfr, andb_true_r.
+        cbn [existsb frame_eqb orb]. rewrite orb_false_r.
+        assert (Hdl' : codes (drop_last_nl n) = codes n \/ True) by (right; exact I).
+        (* the name as above *)
+        match goal with X : flat_ok _ _ _ _ = true |- _ => destruct (flat_ok_premises _ _ X) as (Hs & _) end.
+        assert (Hdl : drop_last_nl n = n).
+        { rewrite <- (plain_chars_codes n Hb). rewrite <- Hs.
+          unfold drop_last_nl. destruct (rev (strip_i (chars (codes n)))) as [|z zs] eqn:Er; [reflexivity|].
+          destruct (is_code 10 z) eqn:Ez; [|reflexivity]. exfalso.
+          assert (Hsp : sp_item z = true) by (destruct z; try discriminate Ez; cbn in *; apply N.eqb_eq in Ez; subst; reflexivity).
+          unfold strip_i, rstrip_i in Er. rewrite rev_involutive in Er.
+          assert (Hl : forall y w ws, lstrip_i y = w :: ws -> sp_item w = false).
+          { induction y as [|q y IHy]; intros w ws Hy; [discriminate|]. cbn [lstrip_i] in Hy. destruct (sp_item q) eqn:Eq; [apply (IHy _ _ Hy)|].
+            inversion Hy; subst. exact Eq. }
+          rewrite (Hl _ _ _ Er) in Hsp. discriminate Hsp. }
+        rewrite Hdl. assumption.
+    - destruct args as [|k [|d [|x more]]]; try discriminate Hb; cbn in Hb.
+      + apply andb_true_iff in Hb. destruct Hb as [Hk Hb]. destruct (IH Hb) as [H1 H2].
+        cbn [FlatCall.body_subst]. rewrite forallb_app, fresh_app, H1, H2, !andb_true_r.
+        destruct (am_get ht (param_key k)) as [v|] eqn:G.
+        * assert (Hv := plain_drop_last_nl v (am_get_plain ht _ v Hh G)). split; [apply plain_items | apply plain_fresh]; exact Hv.
+        * assert (Hu : plain (unexpanded_arg [chars (show_key (param_key k))]) = true)
+            by (unfold unexpanded_arg; cbn [join_i]; rewrite !plain_app, !plain_chars; reflexivity).
+          split; [apply plain_items | apply plain_fresh]; exact Hu.
+      + apply andb_true_iff in Hb. destruct Hb as [Hk Hb]. apply andb_true_iff in Hk. destruct Hk as [Hk Hd].
+        destruct (IH Hb) as [H1 H2].
+        cbn [FlatCall.body_subst]. rewrite forallb_app, fresh_app, H1, H2, !andb_true_r.
+        destruct (am_get ht (param_key k)) as [v|] eqn:G.
+        * assert (Hv := plain_drop_last_nl v (am_get_plain ht _ v Hh G)). split; [apply plain_items | apply plain_fresh]; exact Hv.
+        * split; [apply plain_items | apply plain_fresh]; exact Hd.
+  Qed.
+
+  Lemma add_newline_marked_body ht b :
+    add_newline (page_result (body_subst ht (marked_body b))) = add_newline (page_result (body_subst ht b)).
+  Proof.
+    destruct b as [|i b]; [reflexivity|]. destruct i as [c| | | | |]; try reflexivity.
+    cbn [marked_body]. destruct ((c =? 35) || (c =? 42) || (c =? 59) || (c =? 58)) eqn:E; [|reflexivity].
+    cbn [FlatCall.body_subst]. unfold FlatCall.page_result. cbn [flat_map app]. unfold add_newline. cbn [starts_block].
+    replace ((10 =? 42) || (10 =? 59) || (10 =? 58) || (10 =? 35) || _) with false by reflexivity.
+    assert (Hs : (c =? 42) || (c =? 59) || (c =? 58) || (c =? 35) = true).
+    { destruct (c =? 35), (c =? 42), (c =? 59), (c =? 58); cbn in *; congruence. }
+    rewrite Hs. reflexivity.
+  Qed.
+
+  Theorem body_calls_call name args :
+    FlatCall.body_calls_call_ok pfnames lib name args = true -> o_tfn opts = [] -> o_pfn opts = [] ->
+    exists F, forall fuel, (F <= fuel)%nat ->
+      expand_T fuel [FTitle] true (chars name :: args) = Some (FlatCall.body_calls_result lib name args).
+  Proof.
+    intros Hok Htfn Hpfn.
+    unfold FlatCall.body_calls_call_ok in Hok. repeat (apply andb_true_iff in Hok; destruct Hok as [Hok ?]).
+    assert (Hstrip : strip_i (chars name) = chars name).
+    { apply str_eqb_eq in Hok. rewrite <- (plain_chars_codes (strip_i (chars name))) by (apply plain_strip, plain_chars).
+      rewrite Hok. reflexivity. }
+    assert (Hcolon : existsb (N.eqb 58) name = false) by (match goal with X : negb _ = true |- _ => apply negb_true_iff in X; exact X end).
+    assert (Hpf : Expand.classify_pf pfnames (Expand.canon_pf pfnames name) = PfNone)
+      by (destruct (Expand.classify_pf pfnames (Expand.canon_pf pfnames name)); try discriminate; reflexivity).
+    assert (Hargs : forallb plain args = true) by assumption.
+    assert (Hbody : forall t, find_tpl lib name = Some t -> body_calls_ok name (t_body t) = true).
+    { intros t Ht. match goal with X : match find_tpl lib name with _ => _ end = true |- _ => rewrite Ht in X; exact X end. }
+    set (ht := bind_args args 1 []).
+    assert (Hht : values_plain ht = true) by (apply bind_plain; [exact Hargs | reflexivity]).
+    (* the fuel the second pass needs on the substituted body *)
+    assert (Hsecond : exists G, forall fuel, (G <= fuel)%nat -> forall t, find_tpl lib name = Some t ->
+              expand_recurse fuel [FTitle; FTemplate name] true (body_subst ht (marked_body (t_body t)))
+              = Some (page_result (body_subst ht (marked_body (t_body t))))).
+    { destruct (find_tpl lib name) as [t|] eqn:Et.
+      - destruct (body_subst_items name ht (marked_body (t_body t)) Hht (body_marked _ _ (Hbody t eq_refl))) as [Hi Hfr].
+        destruct (expand_items_at _ Hi Htfn Hpfn) as [G HG].
+        exists G. intros fuel Hf t' Ht'. inversion Ht'; subst t'. apply HG; [cbn; lia | exact Hfr | exact Hf].
+      - exists 0%nat. intros fuel _ t' Ht'. discriminate Ht'. }
+    destruct Hsecond as [G HG].
+    set (bsize := match find_tpl lib name with Some t => size2 (marked_body (t_body t)) | None => 0%nat end).
+    exists (length name + fold_right (fun a n => (length a + n)%nat) 0%nat args + length args + bsize + G + 10)%nat.
+    intros fuel Hf. destruct fuel as [|f]; [lia|].
+    rewrite expand_T_S. replace (Nat.leb 100 (length [FTitle])) with false by reflexivity.
+    rewrite (expand_recurse_plain pfnames lib opts (chars name) (plain_chars name)) by (unfold chars; rewrite map_length; lia).
+    cbv beta iota zeta. rewrite Hstrip, codes_chars.
+    rewrite (no_colon_index name 0 Hcolon).
+    rewrite Hpf. rewrite Hcolon. cbn [negb andb].
+    replace (detect_loop ([FTitle] ++ [FTemplate name])) with false by reflexivity.
+    rewrite (build_args_flat args Hargs) by lia. fold ht.
+    rewrite Htfn, Hpfn. cbn [hook_ret find].
+    unfold FlatCall.body_calls_result. fold ht.
+    destruct (find_tpl lib name) as [t|] eqn:Et.
+    - fold (marked_body (t_body t)).
+      rewrite (expand_args_body name (marked_body (t_body t)) (body_marked _ _ (Hbody t eq_refl))) by (unfold bsize in Hf; lia).
+      change ([FTitle] ++ [FTemplate name]) with [FTitle; FTemplate name]. cbn [orb].
+      rewrite (HG f ltac:(lia) t eq_refl).
+      rewrite add_newline_marked_body.
+      destruct (add_newline (page_result (body_subst ht (t_body t)))); reflexivity.
+    - cbn. reflexivity.
+  Qed.
 End Flat.
 
 (** The deviation the code is known to have (c04:trailing-newline-dropped) is exactly the gap between the two
